@@ -27,7 +27,8 @@ META = {
         ' Round 8: a setting sets only itself (_set_str_to_values); parse_tracts() is not gated on parse_complete.'
         ' Round 9: decompile_to_text walks the complete table of settings; no de-duplication in TractParser.parse.'
         " Round 11: a setting the class keeps is in the table its config setter walks; a keyword of a setting's name is applied after the config; the layout value keeps its case on the way to the layout table; verify_default_ns / _ew use their own member's constants; loop-initialised settings count."
-        " Round 12: the integer test of str_to_value accepts every int the writer emits ('0'); the handed-down config keyword is found by what is handed over."),
+        " Round 12: the integer test of str_to_value accepts every int the writer emits ('0'); the handed-down config keyword is found by what is handed over."
+        " Also (round 12): TractParser takes its settings from its arguments only (no second fall-back to the parent's setting)."),
     'families': ['TBL', 'LOCK', 'DEADPARAM', 'SIB', 'FORWARD', 'DEADPARAM', 'SIB-DEFAULTS'],
 }
 
@@ -63,6 +64,7 @@ def check(ctx):
     ctx.attempt(lockdown, ctx.repo.func('Tract.from_twprgesec'), only=('default_ns', 'default_ew'), source='config')
     ctx.attempt(_layout_value_keeps_its_case)
     ctx.attempt(_int_values_round_trip)
+    ctx.attempt(_parser_takes_settings_from_arguments)
     ctx.attempt(common.name_tag_purity, [f for f in ctx.repo.funcs.values() if f.module.name.endswith(('config.config', 'config.master_config'))],
                 pairs=(('ns', 'ew'),))
 
@@ -1037,3 +1039,34 @@ def _int_values_round_trip(ctx):
                   where=common.loc(fi, c))
     if n == 0:
         ctx.ok('TBL', 'str_to_value decides int-ness by int() itself', 'no regex pre-test')
+
+
+def _parser_takes_settings_from_arguments(ctx):
+    """Tract.parse() locks every setting down (keyword, else attribute) and
+    hands the result to TractParser - including a deliberate None (`qq_depth`
+    is passed as None when qq_depth_min / qq_depth_max were given).  A second
+    fall-back inside TractParser.__init__ (`if qq_depth is None: ... =
+    parent.qq_depth`) lets the configured attribute override that decision:
+    the config string beats the keyword."""
+    try:
+        settings = set(_cfg(ctx, '_CONFIG_ATTRIBUTES'))
+    except AnalysisError:
+        settings = set()
+    n = 0
+    for spec, parent_names in (('TractParser.__init__', ('parent',)), ('ChunkParser.__init__', ())):
+        try:
+            fi = ctx.repo.func(spec)
+        except AnalysisError:
+            continue
+        own = set(fi.params()) & settings
+        for x in walk_local(fi.node):
+            if isinstance(x, ast.Attribute) and isinstance(x.ctx, ast.Load) and isinstance(x.value, ast.Name) \
+                    and x.value.id in parent_names and x.attr in own:
+                n += 1
+                ctx.violation('LOCK', f"{spec}: settings come from the arguments only",
+                              f"`{norm(enclosing_stmt(x))[:70]}` falls back to the parent's `{x.attr}` although `{x.attr}` is an argument "
+                              f"that Tract.parse() has already locked down (it passes None on purpose when a more specific keyword "
+                              f"was given): the configured {x.attr} overrides the keyword of this call",
+                              key=f"LOCK|{spec}|second-fallback|{x.attr}", where=common.loc(fi, x))
+    if n == 0:
+        ctx.ok('LOCK', 'TractParser takes its settings from its arguments only', 'no read of parent.<setting> for a setting that is a parameter')
